@@ -137,6 +137,7 @@ func (p *Prog) VerifyFunc(fn *ssa.Function, fc *FuncContract, cf *ContractFile, 
 	if fc != nil && !fc.ModAll {
 		vc.mods = fr.computeMods()
 	}
+	vc.bodyStart = vc.sc.Pos()
 	rets := fr.run(st, reach)
 	// post-conditions
 	if len(rets) > 0 {
@@ -244,6 +245,23 @@ func (p *Prog) VerifyFunc(fn *ssa.Function, fc *FuncContract, cf *ContractFile, 
 }
 
 func newFuncVC(p *Prog, fn *ssa.Function, fc *FuncContract, cf *ContractFile, mode Mode, tier string) *FuncVC {
+	vc := newFuncVC0(p, fn, fc, cf, mode, tier)
+	vc.enc.onPow2 = func(y Term) {
+		// exact value of pow2 for shift counts in [0,64] (quantified counts are
+		// skipped; Script.Assume drops duplicates that are still in scope)
+		if strings.Contains(y.S, "?") {
+			return
+		}
+		chain := intLit(new(bigInt).Lsh(bigOne, 64))
+		for k := 63; k >= 0; k-- {
+			chain = mkIte(mkEq(y, intLit64(int64(k))), intLit(new(bigInt).Lsh(bigOne, uint(k))), chain)
+		}
+		vc.sc.Assume(mkImplies(mkAnd(app(SBool, ">=", y, intLit64(0)), app(SBool, "<=", y, intLit64(64))), mkEq(app(SInt, "pow2", y), chain)), "pow2 of a shift count in [0,64]")
+	}
+	return vc
+}
+
+func newFuncVC0(p *Prog, fn *ssa.Function, fc *FuncContract, cf *ContractFile, mode Mode, tier string) *FuncVC {
 	return &FuncVC{prog: p, fn: fn, fc: fc, cf: cf, enc: &Enc{Mode: mode}, sc: NewScript(), entry: map[string]Term{},
 		entrySorts: map[string]Sort{}, counters: map[string]int{}, typeIDs: map[string]int{}, strLits: map[string]Term{},
 		funcIDs: map[string]int{}, subFuncs: map[string]bool{}, prov: map[string]provInfo{}, globalRefs: map[string]Term{}, tier: tier}
@@ -292,12 +310,83 @@ func (p *Prog) VerifyLemma(fc *FuncContract, cf *ContractFile, pkgName string, t
 		}
 		env.vars[prm.Name] = vc.freshVal("lemma_"+prm.Name, pt, st)
 	}
+	if fc.Induct != "" {
+		// induction on an integer parameter: the lemma may be assumed for the
+		// predecessor; well-foundedness needs a lower bound ("induct m from lo")
+		name, from, hasFrom := strings.Cut(fc.Induct, " from ")
+		name = strings.TrimSpace(name)
+		iv, ok := env.vars[name].(*FV)
+		if !ok || len(iv.L) != 1 || iv.L[0].Sort != SInt || !hasFrom {
+			panic(specErr{"lemma " + fc.Key + ": induct needs an integer parameter in mode int and a lower bound (induct m from lo)"})
+		}
+		if strings.Contains(" "+strings.NewReplacer("(", " ", ")", " ", ",", " ", "+", " ", "-", " ").Replace(from)+" ", " "+name+" ") {
+			panic(specErr{"lemma " + fc.Key + ": the lower bound of the induction must not mention " + name})
+		}
+		fe, err := parseExprSrc(strings.TrimSpace(from), cf.Path, fc.Line)
+		if err != nil {
+			panic(specErr{err.Error()})
+		}
+		ih := &SpecEnv{vc: vc, cf: cf, pkg: cf.PkgTypes, vars: map[string]Val{}, oldVars: map[string]Val{}, cur: st, old: st, allocOld: st.Alloc, where: "lemma " + name + " (induction hypothesis)", expand: fc.Expand}
+		for k, v := range env.vars {
+			ih.vars[k] = v
+		}
+		ih.vars[name] = scalar(iv.T, app(SInt, "-", iv.L[0], intLit64(1)))
+		var hyp, concl []Term
+		for _, c := range fc.Requires {
+			hyp = append(hyp, ih.Bool(c.Expr))
+		}
+		for _, c := range fc.Ensures {
+			concl = append(concl, ih.Bool(c.Expr))
+		}
+		vc.sc.Assume(mkImplies(mkAnd(hyp...), mkAnd(concl...)), "induction hypothesis (the lemma at "+name+" - 1)")
+		var req []Term
+		for _, c := range fc.Requires {
+			req = append(req, env.Bool(c.Expr))
+		}
+		lo := env.tr(fe)
+		lo = env.coerce(lo, iv.T)
+		g := mkImplies(mkAnd(req...), app(SBool, ">=", iv.L[0], lo.(*FV).L[0]))
+		vc.obls = append(vc.obls, &Obligation{Name: fmt.Sprintf("%s#wellfounded", vc.lemmaName), Kind: "lemma", Func: vc.lemmaName, Pos: vc.sc.Pos(), Goal: g, Script: vc.sc,
+			Src: fmt.Sprintf("%s:%d", shortPath(cf.Path), fc.Line), Desc: "induct " + fc.Induct + ": the hypotheses bound the induction variable from below", VC: vc})
+	}
 	for _, c := range fc.Requires {
 		vc.sc.Assume(env.Bool(c.Expr), "lemma hypothesis")
+	}
+	// lemmas proved earlier in the file may be used (no cycles: file order)
+	for _, u := range fc.Uses {
+		lf := cf.Funcs["lemma:"+u]
+		if lf == nil {
+			panic(specErr{"lemma " + name + ": uses " + u + ": no such lemma"})
+		}
+		before := false
+		for _, key := range cf.Order {
+			if key == "lemma:"+u {
+				before = true
+				break
+			}
+			if key == fc.Key {
+				break
+			}
+		}
+		if !before {
+			panic(specErr{"lemma " + name + ": uses " + u + ": a lemma may only use lemmas stated before it"})
+		}
+		if len(lf.Params) == 0 {
+			panic(specErr{"lemma " + name + ": uses " + u + ": only parameterised lemmas can be used by a lemma"})
+		}
+		vc.assumeParamLemma(u, lf)
+	}
+	for j, c := range fc.Have {
+		g := env.Bool(c.Expr)
+		ob := &Obligation{Name: fmt.Sprintf("%s#have.%d", vc.lemmaName, j+1), Kind: "lemma", Func: vc.lemmaName, Pos: vc.sc.Pos(), Goal: g, Script: vc.sc,
+			Src: fmt.Sprintf("%s:%d", shortPath(cf.Path), c.Line), Desc: c.Src, VC: vc}
+		vc.obls = append(vc.obls, ob)
+		vc.sc.Assume(g, "lemma step proved above")
 	}
 	for j, c := range fc.Ensures {
 		parts := env.BoolParts(c.Expr)
 		for k, g := range parts {
+			// the clauses are proved in order; a proved clause may be used for the next ones
 			ob := &Obligation{Name: fmt.Sprintf("%s#%d.%d", vc.lemmaName, j+1, k+1), Kind: "lemma", Func: vc.lemmaName, Pos: vc.sc.Pos(), Goal: g, Script: vc.sc,
 				Src: fmt.Sprintf("%s:%d", shortPath(cf.Path), c.Line), Desc: c.Src, VC: vc}
 			if g.IsTrue() {
@@ -305,6 +394,7 @@ func (p *Prog) VerifyLemma(fc *FuncContract, cf *ContractFile, pkgName string, t
 				ob.Pre = true
 			}
 			vc.obls = append(vc.obls, ob)
+			vc.sc.Assume(g, "lemma clause proved above")
 		}
 	}
 	res.Obls = vc.obls
@@ -349,7 +439,8 @@ func (vc *FuncVC) assumeLemmas(st *State) {
 			panic(specErr{"uses " + name + ": no such lemma"})
 		}
 		if len(lf.Params) > 0 {
-			panic(specErr{"uses " + name + ": parameterised lemmas cannot be assumed wholesale"})
+			vc.assumeParamLemma(name, lf)
+			continue
 		}
 		env := &SpecEnv{vc: vc, cf: vc.cf, pkg: vc.cf.PkgTypes, vars: map[string]Val{}, oldVars: map[string]Val{}, cur: st, old: st, allocOld: st.Alloc, where: "lemma " + name}
 		for _, c := range lf.Ensures {
@@ -515,4 +606,149 @@ func (fr *Frame) frameObligations(final *State, reach Term) {
 		fr.obligeNamed("frame."+short, "frame", mkAnd(append([]Term{reach}, conds...)...), mkEq(mkSelect(fin, r), mkSelect(ent, r)),
 			"locations of "+k+" outside the modifies clause are unchanged", fc.Line)
 	}
+}
+
+
+// assumeParamLemma assumes a parameterised lemma as its universal closure over
+// the parameters and over every heap component it reads (the lemma's own proof
+// is for an arbitrary heap).
+func (vc *FuncVC) assumeParamLemma(name string, lf *FuncContract) {
+	vc.assumeParamLemmaAt(name, lf, true)
+}
+
+// assumeParamLemmaAt: persistent = for the whole function; otherwise from the
+// current script position on ("loop k uses").
+func (vc *FuncVC) assumeParamLemmaAt(name string, lf *FuncContract, persistent bool) {
+	enc := vc.enc
+	sym := &State{Locals: map[*ssa.Alloc]Val{}, Heap: map[string]Term{}, Alloc: Term{"alloc?", SInt}, Sym: &symHeap{terms: map[string]Term{}}}
+	env := &SpecEnv{vc: vc, cf: vc.cf, pkg: vc.cf.PkgTypes, vars: map[string]Val{}, oldVars: map[string]Val{}, cur: sym, old: sym, allocOld: sym.Alloc, where: "lemma " + name}
+	var binders []string
+	for i, p := range lf.Params {
+		pt := env.lookupType(p.Type)
+		if pt == nil {
+			panic(specErr{"lemma " + name + ": unknown parameter type"})
+		}
+		fv := &FV{T: pt}
+		if isMath(pt) {
+			fv.L = []Term{{fmt.Sprintf("q?%d_0", i), enc.scalarSort(pt)}}
+		} else {
+			for j, l := range enc.Leaves(pt) {
+				fv.L = append(fv.L, Term{fmt.Sprintf("q?%d_%d", i, j), l.Sort})
+			}
+		}
+		for _, t := range fv.L {
+			binders = append(binders, fmt.Sprintf("(%s %s)", t.S, t.Sort))
+		}
+		env.vars[p.Name] = fv
+	}
+	var hyp, concl []Term
+	for i, p := range lf.Params {
+		_ = i
+		hyp = append(hyp, vc.wellTyped(env.vars[p.Name], sym))
+	}
+	for _, c := range lf.Requires {
+		hyp = append(hyp, env.Bool(c.Expr))
+	}
+	for _, c := range lf.Ensures {
+		concl = append(concl, env.Bool(c.Expr))
+	}
+	body := mkImplies(mkAnd(hyp...), mkAnd(concl...))
+	var rewrites [][2]string
+	for j, k := range sym.Sym.keys {
+		t := sym.Sym.terms[k]
+		// footprint reduction (as for ospec applications): a component read only
+		// at the backing object of one slice parameter is quantified as that
+		// object's element array; solvers give up early on quantifiers over
+		// arrays of arrays
+		name, srt := t.S, t.Sort
+		if x, ok := selectTemplate(body.S, t, "q?"); ok {
+			_, el := t.Sort.ArrParts()
+			name, srt = fmt.Sprintf("m?%d", j), el
+			body.S = strings.ReplaceAll(body.S, fmt.Sprintf("(select %s %s)", t.S, x), name)
+			rewrites = append(rewrites, [2]string{fmt.Sprintf("(select %s %s)", t.S, x), name})
+		}
+		if srt.IsArr() {
+			// quantify over an Int handle instead of an array-sorted variable
+			box, unbox := vc.boxFns(srt)
+			id := fmt.Sprintf("id?%d", j)
+			ub := Term{"(" + unbox + " " + id + ")", srt}
+			body.S = replaceToken(body.S, name, ub.S)
+			body.S = strings.ReplaceAll(body.S, "("+box+" "+ub.S+")", id)
+			rewrites = append(rewrites, [2]string{" " + name + " ", " " + ub.S + " "}, [2]string{" " + name + ")", " " + ub.S + ")"}, [2]string{"(" + box + " " + ub.S + ")", id})
+			binders = append(binders, fmt.Sprintf("(%s Int)", id))
+			// the lemma was proved for well-typed memory only
+			if tp := vc.typedPred(k, srt); tp != "" {
+				body = mkImplies(Term{"(" + tp + " " + id + ")", SBool}, body)
+			}
+			continue
+		}
+		binders = append(binders, fmt.Sprintf("(%s %s)", name, srt))
+		body = mkImplies(vc.arrayTyped(k, Term{name, srt}), body)
+	}
+	// explicit triggers
+	if len(lf.Triggers) > 0 {
+		var pats []string
+		for _, tr := range lf.Triggers {
+			var ts []string
+			for _, c := range tr {
+				v := env.tr(c.Expr)
+				fv, ok := v.(*FV)
+				if !ok || len(fv.L) != 1 {
+					panic(specErr{"lemma " + name + ": a trigger must be a scalar term"})
+				}
+				ts = append(ts, fv.L[0].S)
+			}
+			pats = append(pats, ":pattern ("+strings.Join(ts, " ")+")")
+		}
+		patText := strings.Join(pats, " ")
+		// the same rewriting as the body: reduced heap reads and handles
+		for _, rw := range rewrites {
+			patText = strings.ReplaceAll(patText, rw[0], rw[1])
+		}
+		assume := vc.sc.AssumeP
+		if !persistent {
+			assume = vc.sc.Assume
+		}
+		assume(Term{fmt.Sprintf("(forall (%s) (! %s %s))", strings.Join(binders, " "), body.S, patText), SBool}, "lemma "+name+" (proved separately)")
+		return
+	}
+	// trigger: the opaque applications of the lemma, if they mention every bound variable
+	var apps []string
+	seenApp := map[string]bool{}
+	for i := 0; i < len(body.S); i++ {
+		if strings.HasPrefix(body.S[i:], "(spec_") {
+			d := 0
+			for e := i; e < len(body.S); e++ {
+				if body.S[e] == '(' {
+					d++
+				} else if body.S[e] == ')' {
+					d--
+					if d == 0 {
+						a := body.S[i : e+1]
+						if !seenApp[a] {
+							seenApp[a] = true
+							apps = append(apps, a)
+						}
+						break
+					}
+				}
+			}
+		}
+	}
+	covered := len(apps) > 0
+	for _, b := range binders {
+		name := strings.Fields(strings.TrimPrefix(b, "("))[0]
+		if !containsToken(strings.Join(apps, " "), name) {
+			covered = false
+		}
+	}
+	assume := vc.sc.AssumeP
+	if !persistent {
+		assume = vc.sc.Assume
+	}
+	if covered {
+		assume(Term{fmt.Sprintf("(forall (%s) (! %s :pattern (%s)))", strings.Join(binders, " "), body.S, strings.Join(apps, " ")), SBool}, "lemma "+name+" (proved separately)")
+		return
+	}
+	assume(Term{fmt.Sprintf("(forall (%s) %s)", strings.Join(binders, " "), body.S), SBool}, "lemma "+name+" (proved separately)")
 }
